@@ -756,7 +756,16 @@ def run(ctx):
                     ctx.count("timeout-with-check-sat(not judged here)")
                 continue
             if not has_checksat(text) and dt > prompt_limit:
-                ctx.violation("slow:no-check-sat", "a script without check-sat took %.1f s" % dt, dict(script=text, mode=mode))
+                # wall-clock under load is no evidence: measure again (twice) before blaming the solver
+                dts = [dt]
+                for _ in range(2):
+                    t1 = time.time()
+                    runner(binary, text, t_limit)
+                    dts.append(time.time() - t1)
+                if min(dts) > prompt_limit:
+                    ctx.violation("slow:no-check-sat", "a script without check-sat took %.1f s (three runs, fastest)" % min(dts), dict(script=text, mode=mode))
+                else:
+                    ctx.count("slow-once-then-prompt(load)")
             items, diag, thrown = classify(out, err, rc)
             nontriv = diag or rc not in (0,)
             ctx.case(key=mode + text, nontrivial=nontriv, kind=kind + ":" + ("file" if mode == "F" else "pipe"),
